@@ -277,10 +277,7 @@ dexpr_copy(const_dexpr_t src)
 static dexpr_t
 dexpr_copy_j(dexpr_t src)
 {
-/* copy SRC, but only if it's a junction (disjunction or conjunction) */
-	if (src->type == DEX_VAL) {
-		return (dexpr_t)src;
-	}
+/* copy SRC, values too, free_dexpr() wants every node to be owned once */
 	return dexpr_copy(src);
 }
 
@@ -358,7 +355,7 @@ __dnf(dexpr_t root)
 
 			/* rearrange this node now, reuse the right disjoint */
 			root->right->type = DEX_CONJ;
-			root->right->left = a;
+			root->right->left = dexpr_copy_j(a);
 			root->right->right = c;
 		}
 		/* fallthrough! */
